@@ -33,14 +33,19 @@ class Failure:
 
 
 class Outcome:
-    __slots__ = ("classes", "nontrivial", "key", "failure", "sample")
+    __slots__ = ("classes", "nontrivial", "key", "failure", "sample", "count", "keys", "class_counts", "failures")
 
-    def __init__(self, classes=(), nontrivial=False, key=None, failure=None, sample=None):
+    def __init__(self, classes=(), nontrivial=False, key=None, failure=None, sample=None, count=1, keys=None,
+                 class_counts=None, failures=None):
         self.classes = classes
         self.nontrivial = nontrivial
         self.key = key
         self.failure = failure
         self.sample = sample
+        self.count = count              # number of sub-cases this (batched) case evaluated
+        self.keys = keys                # hashes of the distinct non-trivial sub-cases (batched cases)
+        self.class_counts = class_counts
+        self.failures = failures        # further failures of a batched case
 
 
 def h64(obj):
@@ -76,9 +81,15 @@ class Stats:
         self.notes.extend(o.notes)
 
     def record(self, case, out):
-        self.evals += 1
+        self.evals += out.count
         for c in out.classes:
             self.classes[c] += 1
+        if out.class_counts:
+            self.classes.update(out.class_counts)
+        if out.keys:
+            self.nontrivial.update(out.keys)
+        for f in (out.failures or []):
+            self.failures.append(f)
         if out.nontrivial:
             self.nontrivial.add(h64(out.key if out.key is not None else case))
             for c in (out.classes or ("nontrivial",)):
